@@ -10,6 +10,7 @@ void _yr_re_fiber_kill_all(RE_FIBER_LIST* l, void* pool);
 int step(void);
 #define FAIL_ON_ERROR(x) { int __error = (x); if (__error != 0) return __error; }
 
+#define OP_HALT 255
 int yr_execute_code(YR_SCAN_CONTEXT* context)
 {
   const unsigned char* ip = 0; unsigned char opcode; int stop = 0, result = 0;
@@ -17,7 +18,11 @@ int yr_execute_code(YR_SCAN_CONTEXT* context)
   {
     opcode = *ip;
     if (opcode == 7) return 31;          /* R10.2: leaves without unloading */
-    stop = 1;
+    switch (opcode)
+    {
+    case OP_HALT: stop = 1; break;
+    default: stop = 1;
+    }
   }
   yr_arena_release(NULL); yr_notebook_destroy(NULL);
   yr_modules_unload_all(context);
